@@ -154,6 +154,13 @@ Section ThreadEqualsSingle.
     (forall m, In m ms -> is_nil (snd m) = false)
     /\ (forall e1 t1 e2 t2, In (e1, t1) ms -> In (e2, t2) ms -> t1 = t2 -> e1 = e2).
 
+  (* since fix 243c78e (a worker asks the global suppressions about a duplicate it drops) only this
+     part of texts_ok is needed: every finding has a rendered text *)
+  Definition texts_nonempty (ms : list (emsg * str)) : Prop := forall m, In m ms -> is_nil (snd m) = false.
+
+  Lemma texts_ok_nonempty ms : texts_ok ms -> texts_nonempty ms.
+  Proof. intros [H _]. exact H. Qed.
+
   Definition macro_local (s : supp) : Prop := stype_eqb (s_type s) TMacro = true -> is_local s = true.
 
   (* the two flag criteria have the shape "consulted, and R" *)
@@ -194,30 +201,24 @@ Section ThreadEqualsSingle.
   Lemma mem_str_cons t t0 seen : mem_str t (t0 :: seen) = str_eqb t t0 || mem_str t seen.
   Proof. reflexivity. Qed.
 
-  (* a finding no local suppression hides is forwarded at its first occurrence *)
-  Lemma forwarded_first n ms : forall seen e t,
-    texts_ok ms -> In (e, t) ms -> existsb (hides pm false e) n = false ->
-    mem_str t seen = true \/ In (e, t) (pick (spec_forward pm false n seen ms) ms).
+  (* a finding no local suppression hides is forwarded (first occurrence of its text) or, as a
+     duplicate, put to the global suppressions by the worker itself (fix 243c78e) *)
+  Lemma forwarded_or_asked n f ms : forall seen e t,
+    texts_nonempty ms -> In (e, t) ms -> existsb (hides pm false e) n = false ->
+    In (e, true) (nomsg_queries pm false n f seen ms) \/ In (e, t) (pick (spec_forward pm false n seen ms) ms).
   Proof.
     induction ms as [|[e0 t0] ms IH]; intros seen e t Hok Hin Hh; [destruct Hin|].
-    assert (Hok' : texts_ok ms).
-    { destruct Hok as [H1 H2]. split; [intros m Hm; apply H1; right; exact Hm|].
-      intros e1 t1 e2 t2 Ha Hb. apply H2; right; assumption. }
-    cbn [spec_forward pick].
-    assert (Hn0 : is_nil t0 = false) by (apply (proj1 Hok (e0, t0)); left; reflexivity).
-    rewrite Hn0. cbn [negb andb].
+    assert (Hok' : texts_nonempty ms) by (intros m Hm; apply Hok; right; exact Hm).
+    assert (Hn0 : is_nil t0 = false) by (apply (Hok (e0, t0)); left; reflexivity).
+    cbn [spec_forward pick nomsg_queries]. rewrite Hn0. cbn [negb andb].
     destruct Hin as [Hin|Hin].
-    - injection Hin as -> ->. destruct (mem_str t seen) eqn:Hs; [left; reflexivity|].
-      cbn [negb andb]. rewrite Hh. cbn [negb]. right. left. reflexivity.
-    - destruct (mem_str t0 seen) eqn:Hs0; cbn [negb andb].
-      + destruct (IH seen e t Hok' Hin Hh) as [H|H]; [left; exact H|right; exact H].
-      + destruct (IH (t0 :: seen) e t Hok' Hin Hh) as [H|H].
-        * rewrite mem_str_cons in H. apply orb_prop in H. destruct H as [H|H]; [|left; exact H].
-          apply str_eqb_eq in H. subst t0.
-          assert (e = e0).
-          { apply (proj2 Hok e t e0 t); [right; exact Hin|left; reflexivity|reflexivity]. }
-          subst e0. rewrite Hh. cbn [negb]. right. left. reflexivity.
-        * right. destruct (negb (existsb (hides pm false e0) n)); [right; exact H|exact H].
+    - injection Hin as -> ->. rewrite Hh. cbn [negb andb].
+      destruct (mem_str t seen) eqn:Hs; cbn [negb andb app].
+      + left. right. left. reflexivity.
+      + right. left. reflexivity.
+    - destruct (IH (if negb (mem_str t0 seen) then t0 :: seen else seen) e t Hok' Hin Hh) as [H|H].
+      + left. apply in_or_app. right. exact H.
+      + right. destruct (negb (mem_str t0 seen) && negb (existsb (hides pm false e0) n)); [right; exact H|exact H].
   Qed.
 
   Lemma bool_eq_of_imp (a b : bool) : (a = true -> b = true) -> (b = true -> a = true) -> a = b.
@@ -225,7 +226,7 @@ Section ThreadEqualsSingle.
 
   (* per file: the thread executor's queries reach what the single executor's reach *)
   Lemma file_anyP_equal n f x s :
-    texts_ok (f_msgs x) -> macro_local s ->
+    texts_nonempty (f_msgs x) -> macro_local s ->
     anyP (thread_file_queries pm n f x) s = anyP (file_queries pm true n f x) s.
   Proof.
     intros Hok Hml. apply bool_eq_of_imp; unfold anyP; intros H; apply existsb_exists in H;
@@ -253,15 +254,17 @@ Section ThreadEqualsSingle.
           { exists (e, true). split; [|exact Hp].
             unfold thread_file_queries, file_queries. apply in_or_app. left. right.
             eapply nomsg_queries_hidden; eassumption. }
-          { exists (no_macros e, true). split.
-            - unfold thread_file_queries. apply in_or_app. right. unfold log_queries. apply in_map_iff.
-              exists (e, t). split; [reflexivity|].
-              destruct (forwarded_first n (f_msgs x) [] e t Hok Ht Hh) as [H|H]; [discriminate|exact H].
-            - cbn [fst snd]. unfold P in *.
-              change (applicable true (no_macros e) s) with (applicable true e s).
-              assert (Hnm : stype_eqb (s_type s) TMacro = false).
-              { destruct (stype_eqb (s_type s) TMacro) eqn:Hm; [|reflexivity]. rewrite (Hml Hm) in Hloc. discriminate. }
-              rewrite (R2 s e Hnm). exact Hp. }
+          { destruct (forwarded_or_asked n f (f_msgs x) [] e t Hok Ht Hh) as [Hq2|Hfw].
+            - exists (e, true). split; [|exact Hp].
+              unfold thread_file_queries, file_queries. apply in_or_app. left. right. exact Hq2.
+            - exists (no_macros e, true). split.
+              + unfold thread_file_queries. apply in_or_app. right. unfold log_queries. apply in_map_iff.
+                exists (e, t). split; [reflexivity|exact Hfw].
+              + cbn [fst snd]. unfold P in *.
+                change (applicable true (no_macros e) s) with (applicable true e s).
+                assert (Hnm : stype_eqb (s_type s) TMacro = false).
+                { destruct (stype_eqb (s_type s) TMacro) eqn:Hm; [|reflexivity]. rewrite (Hml Hm) in Hloc. discriminate. }
+                rewrite (R2 s e Hnm). exact Hp. }
   Qed.
 
   Lemma existsb_ext_in {A} (f g : A -> bool) l : (forall x, In x l -> f x = g x) -> existsb f l = existsb g l.
@@ -271,7 +274,7 @@ Section ThreadEqualsSingle.
   Qed.
 
   Lemma all_anyP_equal n f fs s :
-    Forall (fun x => texts_ok (f_msgs x)) fs -> macro_local s ->
+    Forall (fun x => texts_nonempty (f_msgs x)) fs -> macro_local s ->
     anyP (thread_queries pm n f fs) s = anyP (single_queries pm n f fs) s.
   Proof.
     intros Hok Hml. unfold anyP, thread_queries, single_queries. rewrite !existsb_flat_map.
@@ -293,7 +296,7 @@ Section ThreadEqualsSingle2.
   Proof. unfold located. intros ->. reflexivity. Qed.
 
   Lemma derive_thread_single n f fs wq M s :
-    Forall (fun x => texts_ok (f_msgs x)) fs -> macro_local s ->
+    Forall (fun x => texts_nonempty (f_msgs x)) fs -> macro_local s ->
     derive pm (thread_queries pm n f fs ++ wq) M s = derive pm (single_queries pm n f fs ++ wq) M s.
   Proof.
     intros Hok Hml. unfold derive. rewrite !anyhide_app, !anyreach_app.
@@ -335,11 +338,11 @@ Section ThreadEqualsSingle2.
 
   (* the thread executor ends with the flags of the single executor and reports the same
      unmatched suppressions *)
-  Theorem thread_equals_single cfg n f fs wp o1 o2 :
+  Theorem thread_equals_single_ne cfg n f fs wp o1 o2 :
     whole_run pm None cfg n f fs wp = Some o1 ->
     whole_run pm (Some EThread) cfg n f fs wp = Some o2 ->
     uniq n = true -> Forall (inline_present n) fs ->
-    Forall (fun x => texts_ok (f_msgs x)) fs -> Forall macro_local n ->
+    Forall (fun x => texts_nonempty (f_msgs x)) fs -> Forall macro_local n ->
     o_nomsg o2 = o_nomsg o1 /\ o_unmatched o2 = o_unmatched o1.
   Proof.
     intros H1 H2 Hu Hin Hok Hml.
@@ -351,5 +354,17 @@ Section ThreadEqualsSingle2.
     split; [exact Hn|].
     apply whole_run_unmatched_of_nomsg in H1. apply whole_run_unmatched_of_nomsg in H2.
     rewrite Hn in H2. rewrite H1 in H2. injection H2 as ->. reflexivity.
+  Qed.
+
+  (* the statement with the former, stronger hypothesis *)
+  Theorem thread_equals_single cfg n f fs wp o1 o2 :
+    whole_run pm None cfg n f fs wp = Some o1 ->
+    whole_run pm (Some EThread) cfg n f fs wp = Some o2 ->
+    uniq n = true -> Forall (inline_present n) fs ->
+    Forall (fun x => texts_ok (f_msgs x)) fs -> Forall macro_local n ->
+    o_nomsg o2 = o_nomsg o1 /\ o_unmatched o2 = o_unmatched o1.
+  Proof.
+    intros H1 H2 Hu Hin Hok Hml. apply (thread_equals_single_ne cfg n f fs wp o1 o2 H1 H2 Hu Hin); [|exact Hml].
+    revert Hok. apply Forall_impl. intros x. apply texts_ok_nonempty.
   Qed.
 End ThreadEqualsSingle2.
